@@ -99,71 +99,85 @@ theorem quoIntRoundUp_is_ceil {a b : Int} (ha : 0 ≤ a) (hb : 0 < b) :
 
 /-! ### Ratio fees (`applyLooselyTo`, `ApplyTo`) -/
 
+/-- the value `applyLooselyTo` computes before the range check: the ceiling -/
+theorem ratio_value_isCeil {p rp rf : Int} (hp : 0 ≤ p) (hrf : 0 ≤ rf) (hrp : 0 < rp) :
+    IsCeilDiv (p * rf) rp (if (p * rf).tmod rp ≠ 0 then (p * rf).tdiv rp + 1 else (p * rf).tdiv rp) :=
+  tdiv_roundup_isCeil (Int.mul_nonneg hp hrf) hrp
+
 /-- Seller/buyer settlement ratio fee: `⌈price·fee/ratioPrice⌉`, with the rounded flag set
-exactly when the division is inexact; non-negative. -/
+exactly when the division is inexact; non-negative — whenever the RESULT is representable (the
+product may need any number of bits). -/
 theorem applyLoosely_is_ceil {p rp rf : Int} (hp : 0 ≤ p) (hrf : 0 ≤ rf) (hrp : 0 < rp)
-    (hfit : fits256 (p * rf) = true) :
+    (hfit : fits256 (ceilDiv (p * rf) rp) = true) :
     ∃ a r, applyLooselyTo p rp rf = .ok (a, r) ∧ IsCeilDiv (p * rf) rp a ∧
       (r = true ↔ (p * rf) % rp ≠ 0) ∧ 0 ≤ a := by
   have hprod : 0 ≤ p * rf := Int.mul_nonneg hp hrf
-  obtain ⟨e1, e2⟩ := tdiv_tmod_nonneg hprod hrp
-  obtain ⟨h1, h2, h3⟩ := ediv_facts (p * rf) hrp
-  have hceil := tdiv_roundup_isCeil hprod hrp
-  have hq : 0 ≤ p * rf / rp := Int.ediv_nonneg hprod (by omega)
-  unfold applyLooselyTo mul256
+  obtain ⟨_, e2⟩ := tdiv_tmod_nonneg hprod hrp
+  have hceil := ratio_value_isCeil hp hrf hrp
+  have heq := isCeilDiv_unique hrp hceil (ceilDiv_isCeil (p * rf) hrp)
   have hrp0 : ¬ rp = 0 := by omega
-  simp only [hrp0, if_false, hfit, if_true]
-  by_cases hr : (p * rf).tmod rp = 0
-  · refine ⟨(p * rf).tdiv rp, false, ?_, ?_, ?_, ?_⟩
-    · simp [hr, bind, Except.bind, pure, Except.pure]
-    · simpa [hr] using hceil
-    · rw [← e2]; simp [hr]
-    · rw [e1]; exact hq
-  · -- the quotient plus one still fits: it is at most the product
-    have hfit' : fits256 ((p * rf).tdiv rp + 1) = true := by
-      unfold fits256 at *
-      have hle : (p * rf) / rp + 1 ≤ p * rf := by
-        rw [e2] at hr
-        have hrp2 : 2 ≤ rp := by
-          by_contra hcon
-          have : rp = 1 := by omega
-          subst this; simp at hr
-        have hpos : 0 < (p * rf) % rp := by omega
-        nlinarith
-      rw [e1]
-      have : ((p * rf) / rp + 1).natAbs ≤ (p * rf).natAbs := by omega
-      simp only [decide_eq_true_eq] at *
-      omega
-    refine ⟨(p * rf).tdiv rp + 1, true, ?_, ?_, ?_, ?_⟩
-    · simp [hr, add256, hfit', bind, Except.bind, pure, Except.pure]
-    · simpa [hr] using hceil
-    · rw [← e2]; simp [hr]
-    · rw [e1]; omega
+  refine ⟨(if (p * rf).tmod rp ≠ 0 then (p * rf).tdiv rp + 1 else (p * rf).tdiv rp),
+    decide ((p * rf).tmod rp ≠ 0), ?_, hceil, ?_, isCeilDiv_nonneg hrp hprod hceil⟩
+  · unfold applyLooselyTo
+    simp only [hrp0, if_false]
+    rw [heq, hfit]; rfl
+  · rw [← e2]; simp
 
-/-- The exact failing set of the ratio fee: it fails (Go: panics) iff the product of price
-and ratio fee needs more than 256 bits. -/
+/-- The exact failing set of the ratio fee (for a valid ratio): it is refused iff the FEE ITSELF
+does not fit 256 bits, i.e. cannot exist as a coin amount. -/
 theorem applyLoosely_fails_iff {p rp rf : Int} (hp : 0 ≤ p) (hrf : 0 ≤ rf) (hrp : 0 < rp) :
-    (∃ e, applyLooselyTo p rp rf = .error e) ↔ fits256 (p * rf) = false := by
-  constructor
-  · rintro ⟨e, he⟩
-    by_contra hfit
-    have hfit : fits256 (p * rf) = true := by simpa using hfit
-    obtain ⟨a, r, hok, _⟩ := applyLoosely_is_ceil hp hrf hrp hfit
-    rw [hok] at he; cases he
-  · intro h
-    refine ⟨.overflow, ?_⟩
-    unfold applyLooselyTo mul256
-    have hrp0 : ¬ rp = 0 := by omega
-    simp [hrp0, h, bind, Except.bind, throw, throwThe, MonadExceptOf.throw]
+    (∃ e, applyLooselyTo p rp rf = .error e) ↔ fits256 (ceilDiv (p * rf) rp) = false := by
+  have hceil := ratio_value_isCeil hp hrf hrp
+  have heq := isCeilDiv_unique hrp hceil (ceilDiv_isCeil (p * rf) hrp)
+  have hrp0 : ¬ rp = 0 := by omega
+  unfold applyLooselyTo
+  simp only [hrp0, if_false]
+  rw [heq]
+  cases hf : fits256 (ceilDiv (p * rf) rp) <;> simp
 
-/-- Witness that the clause "no amount makes the computation fail" is false of the code:
-price `2^255`, ratio `1 : 2`. Replayed on the implementation by the C19 check. -/
+/-- with a non-zero ratio price the only refusal is "result too large" -/
+theorem applyLoosely_error_invalid {p rp rf : Int} {e : AErr} (hrp : rp ≠ 0)
+    (h : applyLooselyTo p rp rf = .error e) : e = .invalid := by
+  unfold applyLooselyTo at h
+  simp only [hrp, if_false] at h
+  generalize (if (p * rf).tmod rp ≠ 0 then (p * rf).tdiv rp + 1 else (p * rf).tdiv rp) = v at h
+  cases hf : fits256 v
+  · simp [hf] at h; exact h.symm
+  · simp [hf] at h
+
+/-- "No amount makes the computation fail": every representable fee is computed. In particular
+whenever the fee does not exceed the price amount times a ratio of at most 1 (`rf ≤ rp`, the rule
+`FeeRatio.Validate` enforces for same-denomination ratios) nothing can fail. -/
+theorem applyLoosely_never_fails_when_fee_le_price {p rp rf : Int} (hp : 0 ≤ p) (hrf : 0 ≤ rf)
+    (hrp : 0 < rp) (hle : rf ≤ rp) (hfit : fits256 p = true) :
+    ∃ a r, applyLooselyTo p rp rf = .ok (a, r) := by
+  have hprod : 0 ≤ p * rf := Int.mul_nonneg hp hrf
+  have hc := ceilDiv_isCeil (p * rf) hrp
+  have h0 := isCeilDiv_nonneg hrp hprod hc
+  have hp' : IsCeilDiv (p * rp) rp p := by unfold IsCeilDiv; constructor <;> nlinarith
+  have hmono := isCeilDiv_mono hrp (by nlinarith : p * rf ≤ p * rp) hc hp'
+  have hfa : p.natAbs < 2 ^ 256 := by simpa [fits256] using hfit
+  have : fits256 (ceilDiv (p * rf) rp) = true := by
+    unfold fits256; simp only [decide_eq_true_eq]; omega
+  obtain ⟨a, r, h, _⟩ := applyLoosely_is_ceil hp hrf hrp this
+  exact ⟨a, r, h⟩
+
+/-- Before the repair (market.go, `price.Amount.Mul(r.Fee.Amount)`): the computation failed (Go:
+panicked) as soon as the PRODUCT needed more than 256 bits — price `2^255`, ratio `1 : 2` — although
+the fee (here `2^256 / 1`… no: here `2^255·2 = 2^256`, unrepresentable) or, for ratio `4 : 2`,
+the representable fee `2^254`. -/
+theorem ratio_failed_before_fix :
+    applyLooselyToPreFix (2 ^ 255) 4 2 = .error .overflow ∧
+    applyLooselyTo (2 ^ 255) 4 2 = .ok (2 ^ 254, false) := by
+  constructor <;> decide
+
+/-- Still refused after the repair, by necessity: the fee `2^256` is not a coin amount. -/
 theorem ratio_can_fail :
-    applyLooselyTo (2 ^ 255) 1 2 = .error .overflow := by decide
+    applyLooselyTo (2 ^ 255) 1 2 = .error .invalid := by decide
 
 /-- `ApplyTo` succeeds exactly on exact applications and then returns the exact quotient. -/
 theorem applyTo_exact {p rp rf : Int} (hp : 0 ≤ p) (hrf : 0 ≤ rf) (hrp : 0 < rp)
-    (hfit : fits256 (p * rf) = true) :
+    (hfit : fits256 (ceilDiv (p * rf) rp) = true) :
     (∀ a, applyTo p rp rf = .ok a → a * rp = p * rf) ∧
     ((p * rf) % rp = 0 → ∃ a, applyTo p rp rf = .ok a) := by
   obtain ⟨a, r, hok, hceil, hr, _⟩ := applyLoosely_is_ceil hp hrf hrp hfit
@@ -327,11 +341,11 @@ theorem ratio_fee_monotone {p p' rp rf a a' : Int} {r r' : Bool}
     (hp : 0 ≤ p) (hpp : p ≤ p') (hrf : 0 ≤ rf) (hrp : 0 < rp)
     (h : applyLooselyTo p rp rf = .ok (a, r)) (h' : applyLooselyTo p' rp rf = .ok (a', r')) :
     a ≤ a' := by
-  have fit1 : fits256 (p * rf) = true := by
+  have fit1 : fits256 (ceilDiv (p * rf) rp) = true := by
     by_contra hc
     have := (applyLoosely_fails_iff hp hrf hrp).mpr (by simpa using hc)
     obtain ⟨e, he⟩ := this; rw [h] at he; cases he
-  have fit2 : fits256 (p' * rf) = true := by
+  have fit2 : fits256 (ceilDiv (p' * rf) rp) = true := by
     by_contra hc
     have := (applyLoosely_fails_iff (p := p') (by omega) hrf hrp).mpr (by simpa using hc)
     obtain ⟨e, he⟩ := this; rw [h'] at he; cases he
